@@ -142,7 +142,11 @@ def run_c15(tier):
 
 
 def run_c12(tier):
-    return Ld('C12', ['L-sop2', 'L-const'], tier) + A('C12', ['fq2'], tier) + kani.decide('C12', sel(k_conv_specs(), ['k_cmp_eq_fq2', 'k_conv_fq2_from_slice', 'k_fq2_bytes']), tier, pool=4)
+    from concurrent.futures import ThreadPoolExecutor
+    with ThreadPoolExecutor(max_workers=1) as ex_:   # engine L side by side with A and K
+        fl = ex_.submit(Ld, 'C12', ['L-sop2', 'L-const'], tier)
+        rest = A('C12', ['fq2'], tier) + kani.decide('C12', sel(k_conv_specs(), ['k_cmp_eq_fq2', 'k_conv_fq2_from_slice', 'k_fq2_bytes']), tier, pool=4)
+        return fl.result() + rest
 
 
 def run_c17(tier):
@@ -196,8 +200,12 @@ def run_c08(tier):
 def run_c07(tier):
     S = sel(k_lin_specs(), ['k_lin_']) + sel(k_conv_specs(), ['k_conv_from_slice', 'k_conv_interpret', 'k_conv_from_hash', 'k_conv_from_str', 'k_random', 'k_setbit_fr', 'k_cmp_eq', 'k_conv_fq2_from_slice', 'k_conv_roundtrip'])
     import lengine
-    L = [o for o in Ld('C07', lengine.MUL + lengine.SOP[:1] + lengine.DIV, tier) if o.name.endswith('-range') or o.name.startswith('L-const') or o.name.startswith('L-divrem')]
-    return kani.decide('C07', S, tier, pool=8) + L
+    from concurrent.futures import ThreadPoolExecutor
+    with ThreadPoolExecutor(max_workers=1) as ex_:   # engines K and L side by side (different artefacts)
+        fl = ex_.submit(Ld, 'C07', lengine.MUL + lengine.SOP[:1] + lengine.DIV, tier)
+        k = kani.decide('C07', S, tier, pool=8)
+        L = [o for o in fl.result() if o.name.endswith('-range') or o.name.startswith('L-const') or o.name.startswith('L-divrem')]
+    return k + L
 
 
 def run_c10(tier):
